@@ -64,8 +64,24 @@ structure Ref where
 
 def viol (kind : String) (extra : List Sexp) : Sexp := app "violation" (.atom kind :: extra)
 
+/-- is the negative entry of row `i` after the pivot `(h, t)` from the basis `prevBasis` explained by a tie of the
+ratio test WITHIN THE ABSOLUTE TOLERANCE?  i.e. row `i` was a candidate (`a_ih > 0`) whose exact ratio is smaller than
+the chosen row's, but by at most `tol`: then `b'_i = −a_ih·(ratio_t − ratio_i) ≥ −a_ih·tol`.  Any other negativity
+(larger gap, non-candidate row) is not excused. -/
+def tieExplains (tol : Rat) (n : Nat) (aug : List (List Rat)) (prevBasis : List Nat) (h t i : Nat) : Bool :=
+  match reduceOn aug prevBasis with
+  | none => false
+  | some (piv, _) =>
+    let ri := piv.getD i []
+    let rt := piv.getD t []
+    let ai := ri.getD h 0
+    let atv := rt.getD h 0
+    if i == t || ai ≤ 0 || atv ≤ 0 then false else
+    let gap := rt.getD n 0 / atv - ri.getD n 0 / ai
+    decide (0 ≤ gap) && decide (gap ≤ tol)
+
 /-- checks one tableau of the trace against the reference; returns the exact objective of its basis. -/
-def checkTab (tol : Rat) (R : Ref) (k : Nat) (T : QTab) : Except Sexp Rat := do
+def checkTab (tol : Rat) (R : Ref) (k : Nat) (T : QTab) (prev : Option (List Nat × Nat × Nat) := none) : Except Sexp Rat := do
   let at_ := encNat k
   let m' := T.a.length
   if T.b.length != m' || T.basis.length != m' || T.c.length != R.n || T.a.any (·.length != R.n) then
@@ -95,8 +111,13 @@ def checkTab (tol : Rat) (R : Ref) (k : Nat) (T : QTab) : Except Sexp Rat := do
         if qabs (r.getD j 0 - want) > 1 / 1000000000 + R.scale / 100000000000 then
           throw (viol "basic-column-not-unit" [at_, encNat j, encNat i', encQ (r.getD j 0)])
     -- feasibility of the basic solution (exact, and as stored)
-    match exB.find? (· < 0) with
-    | some v => throw (viol (if v ≥ -(10 * tol) then "basic-solution-negative-within-tolerance" else "basic-solution-negative") [at_, encQ v])
+    match exB.zipIdx.find? (·.1 < 0) with
+    | some (v, i) =>
+      let tie := match prev with
+        | some (pb, h, t) => tieExplains tol R.n aug pb h t i
+        | none => false
+      throw (viol (if tie then "ratio-tie-within-tolerance"
+                   else if v ≥ -(10 * tol) then "basic-solution-negative-within-tolerance" else "basic-solution-negative") [at_, encQ v])
     | none => pure ()
     match T.b.find? (· < -(tol + R.scale / 100000000000)) with
     | some v => throw (viol "stored-b-negative" [at_, encQ v])
@@ -137,9 +158,16 @@ def checkRaw (tol : Rat) (sm : StdModel (Ext Rat)) (start : Sexp) (steps : List 
       match decTab t0, optAllR (fun | .list [_, t] => decTab t | _ => none) steps with
       | some T0, some Ts =>
         let all := T0 :: Ts
+        -- the pivot (entering column, leaving row) that produced each tableau of the trace
+        let acts : List (Option (Nat × Nat)) := none :: steps.map fun
+          | .list [.list [.atom "pivot", h, t, _], _] => (do pure ((← decNat h), (← decNat t)) : Option (Nat × Nat))
+          | _ => none
+        let prevs : List (Option (List Nat × Nat × Nat)) := (List.zip (T0 :: all) acts).map fun
+          | (Tp, some (h, t)) => some (Tp.basis, h, t)
+          | _ => none
         -- every prefix
         let res : Except Sexp (List Rat) := all.zipIdx.foldlM (fun zs (T, k) => do
-          let z ← checkTab tol R k T
+          let z ← checkTab tol R k T (prevs.getD k none)
           match zs.getLast? with
           | some prev => if z > prev + (max 1 (qabs prev)) / 1000000000 then throw (viol "objective-increased" [encNat k, encQ prev, encQ z]) else pure ()
           | none => pure ()
